@@ -258,10 +258,13 @@ func reopenCheck(env *dbx.Env, keys []string) string {
 func c06Window(tier string, seed int64, idx int, scratch string) rt.CaseResult {
 	var c rt.CaseResult
 	rt.SetWatchdogLimit(25 * time.Second)
-	if idx%5 == 4 {
+	if idx%6 == 4 {
 		return c06RotationWindow(seed, idx, scratch)
 	}
-	idx = idx/5*4 + idx%5 // the four windows below keep their old numbering
+	if idx%6 == 5 {
+		return c06DoubleWindow(seed, idx, scratch)
+	}
+	idx = idx/6*4 + idx%6 // the four windows below keep their old numbering
 	env, err := dbx.Open(dbx.Options{Mode: dbx.Inline, Dir: filepath.Join(scratch, "db")})
 	if err != nil {
 		c.Violate("open-failed", err.Error(), nil)
@@ -388,5 +391,54 @@ func c06RotationWindow(seed int64, idx int, scratch string) rt.CaseResult {
 		}
 	}
 	checkHistory(&c, hist, tr.Events(), p, false, replay)
+	return c
+}
+
+// c06DoubleWindow: the window get.lookup < overwrite+collect < get.open twice inside one Get: the
+// version found by the second look-up is superseded and cleaned as well before it is opened. The
+// key has a value throughout, so the Get must return one of the three values.
+func c06DoubleWindow(seed int64, idx int, scratch string) rt.CaseResult {
+	var c rt.CaseResult
+	window := "get.lookup<overwrite+collect<get.lookup(again)<overwrite+collect<get.open"
+	env, err := dbx.Open(dbx.Options{Mode: dbx.Inline, Dir: filepath.Join(scratch, "db")})
+	if err != nil {
+		c.Violate("open-failed", err.Error(), nil)
+		return c
+	}
+	defer env.Close()
+	tr := conc.NewTracer(true)
+	tr.Install()
+	defer conc.Uninstall()
+	tag := fmt.Sprintf("d%d-", idx)
+	ru := idx%12 == 11 // the reader is a ReadUncommitted transaction, the versions vanish through rollbacks
+	p := program{Keys: []string{"k"}, Init: []progOp{{Kind: "set", Tx: -1, Key: "k", Tag: tag + "v0", Len: 30}}}
+	reader := []progOp{{Kind: "get", Tx: -1, Key: "k"}}
+	writer := []progOp{{Kind: "sleep", Len: 2000}, {Kind: "set", Tx: -1, Key: "k", Tag: tag + "v1", Len: 30}, {Kind: "collect", Tx: -1},
+		{Kind: "sleep", Len: 6000}, {Kind: "set", Tx: -1, Key: "k", Tag: tag + "v2", Len: 30}, {Kind: "collect", Tx: -1}}
+	if ru {
+		p.Init = append(p.Init, progOp{Kind: "begin", Tx: 0, Level: 0},
+			progOp{Kind: "begin", Tx: 1, Level: 1}, progOp{Kind: "set", Tx: 1, Key: "k", Tag: tag + "u1", Len: 30},
+			progOp{Kind: "begin", Tx: 2, Level: 1}, progOp{Kind: "set", Tx: 2, Key: "k", Tag: tag + "u2", Len: 30})
+		reader = []progOp{{Kind: "get", Tx: 0, Key: "k"}}
+		writer = []progOp{{Kind: "sleep", Len: 2000}, {Kind: "rollback", Tx: 2}, {Kind: "sleep", Len: 6000}, {Kind: "rollback", Tx: 1}}
+	}
+	p.Clients = [][]progOp{reader, writer}
+	var g1, g2 *conc.Gate
+	ops := execProgram(env, tr, p, func(client int, gid int64) {
+		if client == 0 {
+			g1 = tr.AddGate(&conc.Gate{WaitPoint: "store.get.lookup", WaitG: gid, SigPoint: "cleaner.deletefile.done", Timeout: 2 * time.Second})
+			g2 = tr.AddGate(&conc.Gate{WaitPoint: "store.get.lookup", WaitG: gid, Skip: 1, SigPoint: "cleaner.deletefile.done", SigSkip: 1, Timeout: 2 * time.Second})
+		}
+	})
+	out := g1.Outcome() + "/" + g2.Outcome()
+	c.Evals = int64(len(ops))
+	c.AddDistinct(fmt.Sprintf("window:%s/ru=%v/%s", window, ru, out))
+	c.Observe("window outcomes", fmt.Sprintf("%s (reader ReadUncommitted: %v) -> first %s, second %s", window, ru, g1.Outcome(), g2.Outcome()))
+	c.Count("window_attempts", 1)
+	if g1.Outcome() == "hit" && g2.Outcome() == "hit" {
+		c.Count("window_hits", 1)
+	}
+	replay := map[string]any{"seed": seed, "case": idx, "window": window, "gates": out, "program": p}
+	checkHistory(&c, ops, tr.Events(), p, ru, replay)
 	return c
 }
